@@ -191,7 +191,6 @@ structure FR1OKu (g : Cfg) (a : Rec) (s0 : ExitStatus) (pr : Bool) : Prop where
   hU : g.U = a.ser ++ serAll g.body2
   hs : g.hscript = rscript s0
   mode : g.st = if pr then ExitStatus.abort else s0
-  /-- model fuel: `handlerPoll` gets `1000 + 4·|input| + 4·cap` units per poll -/
 
 theorem FR1OKu.fok {g : Cfg} {a : Rec} {s0 : ExitStatus} {pr : Bool} (ok : FR1OKu g a s0 pr) : FOK g :=
   ⟨ok.wf, ok.pairs, ok.noise⟩
@@ -307,7 +306,6 @@ structure FR2OKu (g : Cfg) (mid : List Rec) (a : Rec) (s0 : ExitStatus) (pr : Bo
   hU : g.U = a.ser ++ serAll g.body2
   hs : g.hscript = rscript s0
   mode : g.st = if pr then ExitStatus.abort else s0
-  /-- model fuel: `handlerPoll` gets `1000 + 4·|input| + 4·cap` units per poll -/
 
 theorem FR2OKu.fok {g : Cfg} {mid : List Rec} {a : Rec} {s0 : ExitStatus} {pr : Bool} (ok : FR2OKu g mid a s0 pr) :
     FOK g := ⟨ok.wf, ok.pairs, ok.noise⟩
